@@ -74,6 +74,7 @@ func (e *Engine) smtText(o *Oblig, extra string, tail string) string {
 	if e.ar.mode == ModeInt {
 		sb.WriteString(intPrelude())
 	}
+	sb.WriteString(e.idxPrelude())
 	for _, d := range e.decls[:o.NDecl] {
 		sb.WriteString(d)
 		sb.WriteByte('\n')
